@@ -24,7 +24,7 @@ var poolPEM []byte
 // Key is one member of the committed key pool.
 type Key struct {
 	Name string // e.g. "p256-3"
-	Kind string // rsa1024 rsa1536 rsa2048 rsa2560 rsa3072 rsa3584 rsa4096 p224 p256 p384 p521 ed25519
+	Kind string // rsa1024 rsa1536 rsa2048 rsa2049 (a modulus ONE BIT longer than an approved size; also 3073, 4097) rsa2560 rsa3072 rsa3584 rsa4096 p224 p256 p384 p521 ed25519
 	Priv crypto.Signer
 }
 
@@ -101,7 +101,7 @@ func Count(kind string) int {
 var SupportedKinds = []string{"rsa2048", "rsa3072", "rsa4096", "p256", "p384", "p521"}
 
 // AllKinds is every key kind in the pool.
-var AllKinds = []string{"rsa1024", "rsa1536", "rsa2048", "rsa2560", "rsa3072", "rsa3584", "rsa4096", "p224", "p256", "p384", "p521", "ed25519"}
+var AllKinds = []string{"rsa1024", "rsa1536", "rsa2048", "rsa2560", "rsa3072", "rsa3584", "rsa4096", "rsa2049", "rsa3073", "rsa4097", "p224", "p256", "p384", "p521", "ed25519"}
 
 var (
 	tinyMu  sync.Mutex
